@@ -43,6 +43,17 @@ MANIFEST = {
             "SoftKeeps is a decidable condition on the software set (C06_softKeeps_of_confined_set: software confined to the software "
             "state + firmware keep every sw-independent predicate), true of everything shipped except the Terminal "
             "(C06_gen_shipped_software: regenerated SYSTEM_SOFTWARE sets and per-class receive-path reachability). "
+            "(5, Props/C06Rtr.lean, Props/C06Reach.lean) REACHABILITY FORM: routers and firewalls above their lists are modelled "
+            "(rtrStd: forwarded COPIES of the handled frame, ARP requests for its destination / source / a configured next hop, own "
+            "services answering to the source, the DMZ look-ups before the second verdict; WHERE they send stays opaque) and "
+            "C06_certifiedB_unchanged proves: if every guard (router list / firewall first list or the second list the code selects for "
+            "that address) denies every packet ADDRESSED TO a protected host (decidable scan denyDstCheck, proved sound), the state of "
+            "every protected HOST never changes, whatever else circulates, wherever the guards' other traffic goes, for all software on "
+            "both sides - this covers destination-specific router rules, firewall second-stage blocks from the external/internal zone "
+            "(no FwSecondOK), interior and zone-side forwarding routers, and contains the DMZ look-up observation; a protected host "
+            "ignores every frame not addressed to it (C06_host_deaf). certifyN accepts interior routers (closure proved for rtrStd). "
+            "A blocking element WITH its Terminal behaves like one without for every frame that carries no live session id of it "
+            "(C06_terminal_confined_unless_authorised; by C16: unless A holds valid credentials of an account on it). "
             "Ties: Gen/Filter.lean, Gen/FilterSoft.lean regenerated from router.py, firewall.py, switch.py, host_node.py, base.py, "
             "session_manager.py, arp.py, protocols/arp.py (order of guards and calls, list per entry point, branch shapes, port "
             "dispatch, power guards, own-source stamping, send_frame call sites, cross-node reaches, enable sites, ARPPacket "
@@ -51,11 +62,12 @@ MANIFEST = {
             "before and after the block, B-side describe_state against an idle run, per-frame denied=>inert wrappers, all three "
             "certificates asked on the real post-block network and on the unblocked one, the host/switch/ARP models validated on "
             "every transmitted frame).",
-    "note": "Partial: still hypotheses (validated by R-net): at a FIREWALL port whose first list lets the class pass (second-stage "
-            "blocks), the firewall's own session replies, its DMZ look-ups and its forwarding into zones with no wire to the "
-            "protected side stay on the attacker side (FwSecondOK: needs soundness of the initial ARP cache, C08's); destination- and "
-            "protocol-specific router rules and interior ROUTERS on the attacker side keep the closure hypothesis EmitsCl (source "
-            "classes and any-class with hosts+switches are closed); a Terminal on the blocking element (command execution reaches the "
+    "note": "Partial: the reachability theorem concludes about protected HOSTS only (other devices of the zone do change) and asks "
+            "of attacker-side nodes that they do not forge a protected source address or an ARP payload (proved for hosts and "
+            "switches); a firewall second-stage block reached FROM THE DMZ is covered only when both candidate second lists deny (the "
+            "selection and the forwarding port are two opaque ARP-cache look-ups: FwSecondOK remains there); protocol-specific router "
+            "rules keep the closure hypothesis EmitsCl; that a device's own services answer to the source and that process_frame "
+            "forwards the received frame are model assumptions tied by Gen shape tables and validated on every transmitted frame; a Terminal on the blocking element (command execution reaches the "
             "request dispatcher) and user-installed software are outside the confined set; node-off inertness for hosts/switches/"
             "firewalls rests on C12's invariant (not ON => interfaces disabled); shared mutable frames/payload aliasing and "
             "application-level relays are outside the model.",
@@ -63,7 +75,7 @@ MANIFEST = {
                  "two differential/oracle rigs",
     "design_ref": "5/C06",
 }
-MODULES = ["PrimaiteModel.Lemmas.C06Cut", "PrimaiteModel.Props.C06", "PrimaiteModel.Props.C06Class", "PrimaiteModel.Props.C06Deny", "PrimaiteModel.Props.C06Net"]
+MODULES = ["PrimaiteModel.Lemmas.C06Cut", "PrimaiteModel.Props.C06", "PrimaiteModel.Props.C06Class", "PrimaiteModel.Props.C06Deny", "PrimaiteModel.Props.C06Rtr", "PrimaiteModel.Props.C06Net", "PrimaiteModel.Props.C06Reach"]
 EXE = "drv_c06"
 
 
